@@ -414,7 +414,13 @@ def compare_step(r, m):
     st, s = r.step, r.after
     if st.kind == "cmd":
         want = {"ok": "ok", "err": "err", "panic": "panic"}[m.outcome]
-        if r.res.cls != want:
+        # the model's work tree does not contain Goit's own directory: whether `.goit/HEAD` "exists" as an
+        # argument of add is outside it (Goit finds the file and skips it as excluded, the model refuses the
+        # unknown path).  Either way nothing may be staged: the state comparison below still applies.
+        meta_arg = st.name == "add" and any(a == b".goit" or a.startswith(b".goit/") for a in st.argv[1:] if isinstance(a, bytes))
+        if meta_arg and r.res.cls in ("ok", "err") and want in ("ok", "err"):
+            pass
+        elif r.res.cls != want:
             d.append("exit class: goit=%s (code %s) model=%s; stderr=%r" %
                      (r.res.cls, r.res.code, want, r.res.err[-200:]))
         elif r.res.cls == "ok" and st.parse is not None:
